@@ -34,6 +34,12 @@ fn decode(v: &Value) -> i64 {
 }
 fn t_text(t: &J) -> String { if let Some(v) = t.get("v") { format!("?{}", v.as_str().unwrap()) } else { term_text(t["c"].as_i64().unwrap()) } }
 fn expr_text(e: &J) -> String {
+    match e["f"].as_str().unwrap() {
+        "and" => return format!("({} && {})", expr_text(&e["a"]), expr_text(&e["b"])),
+        "or" => return format!("({} || {})", expr_text(&e["a"]), expr_text(&e["b"])),
+        "not" => return format!("!({})", expr_text(&e["a"])),
+        _ => {}
+    }
     let v = e["v"].as_str().unwrap();
     match e["f"].as_str().unwrap() {
         "bound" => format!("BOUND(?{v})"), "nbound" => format!("!BOUND(?{v})"),
@@ -55,6 +61,9 @@ fn group_text(g: &J) -> String {
 fn query_text(q: &J) -> String {
     let sel: Vec<String> = q["sel"].as_array().unwrap().iter().map(|v| format!("?{}", v.as_str().unwrap())).collect();
     let order = q.get("order").map(|o| if o["desc"].as_bool().unwrap() { format!(" ORDER BY DESC(?{})", o["v"].as_str().unwrap()) } else { format!(" ORDER BY ?{}", o["v"].as_str().unwrap()) }).unwrap_or_default();
+    if let Some(gv) = q.get("group").and_then(|x| x.as_str()) {
+        return format!("SELECT ?{gv} (COUNT(*) AS ?c) WHERE {} GROUP BY ?{gv}", group_text(&q["where"]));
+    }
     let head = if q["count"].as_bool().unwrap() { "SELECT (COUNT(*) AS ?c)".to_string() } else { format!("SELECT {}{}", if q["distinct"].as_bool().unwrap() { "DISTINCT " } else { "" }, sel.join(" ")) };
     let lim = q["limit"].as_i64().unwrap();
     format!("{head} WHERE {}{order}{}", group_text(&q["where"]), if lim >= 0 { format!(" LIMIT {lim}") } else { String::new() })
@@ -94,6 +103,16 @@ impl Gen<'_> {
         };
         Some(json!({"k": "filter", "e": e}))
     }
+    /// a filter that may combine atoms with && / || / !
+    fn filter2(&mut self) -> Option<J> {
+        let a = self.filter()?;
+        match self.rng.random_range(0..10) {
+            0 | 1 => { let b = self.filter()?; Some(json!({"k": "filter", "e": {"f": "or", "a": a["e"], "b": b["e"]}})) }
+            2 => { let b = self.filter()?; Some(json!({"k": "filter", "e": {"f": "and", "a": a["e"], "b": b["e"]}})) }
+            3 => Some(json!({"k": "filter", "e": {"f": "not", "a": a["e"]}})),
+            _ => Some(a),
+        }
+    }
     fn group(&mut self, depth: usize) -> J {
         let mut g = vec![];
         for _ in 0..self.rng.random_range(1..=2) { g.push(self.tp()); }
@@ -116,7 +135,7 @@ impl Gen<'_> {
                 _ => {}
             }
         }
-        if self.rng.random_bool(0.45) { if let Some(f) = self.filter() { g.push(f); } }
+        if self.rng.random_bool(0.45) { if let Some(f) = self.filter2() { g.push(f); } }
         if self.rng.random_bool(0.15) { g.push(self.tp()); }
         json!(g)
     }
@@ -135,6 +154,15 @@ fn gen_query(rng: &mut StdRng, ns: i64) -> J {
     let distinct = !count && g.rng.random_bool(0.3);
     let limit: i64 = if !count && g.rng.random_bool(0.2) { g.rng.random_range(0..=4) } else { -1 };
     let mut q = json!({"sel": sel, "distinct": distinct, "count": count, "limit": limit, "where": w});
+    // SELECT ?g (COUNT(*) AS ?c) ... GROUP BY ?g on a variable of a top-level triple pattern
+    if g.rng.random_bool(0.12) {
+        let top: Vec<String> = q["where"].as_array().unwrap().iter().filter(|e| e["k"] == "tp").flat_map(|e| ["s", "p", "o"].iter().filter_map(|k| e[*k].get("v").and_then(|v| v.as_str()).map(|x| x.to_string())).collect::<Vec<_>>()).collect();
+        if !top.is_empty() {
+            let gv = top[g.rng.random_range(0..top.len())].clone();
+            q = json!({"sel": [gv, "c"], "distinct": false, "count": false, "limit": -1, "where": q["where"], "group": gv});
+            return q;
+        }
+    }
     // ORDER BY a selected variable that every solution binds (it occurs in a top-level triple pattern) and whose kind is known
     if !count && g.rng.random_bool(0.25) {
         let top: Vec<String> = q["where"].as_array().unwrap().iter().filter(|e| e["k"] == "tp").flat_map(|e| ["s", "p", "o"].iter().filter_map(|k| e[*k].get("v").and_then(|v| v.as_str()).map(|x| x.to_string())).collect::<Vec<_>>()).collect();
